@@ -126,7 +126,11 @@ func checkJitter(c jitterCase, o *kit.Obs) error {
 	if c.JitFrac > 0 && !c.Chain && !dj.NeedsRepair {
 		return fmt.Errorf("%w: jittered soup unexpectedly does not need repair", kit.ErrInfra)
 	}
-	res := m3.Tris(m3.MeshFromTris(jit).Repair(eps))
+	jitMesh := m3.MeshFromTris(jit)
+	res := m3.Tris(jitMesh.Repair(eps))
+	if err := untouched3(jitMesh, jit, "Repair"); err != nil {
+		return err
+	}
 	if len(res) != len(base) {
 		return fmt.Errorf("Repair(%g) returned %d faces for %d", eps, len(res), len(base))
 	}
@@ -264,7 +268,11 @@ func checkJitter2(c jitter2Case, o *kit.Obs) error {
 		o.NonTrivial()
 	}
 	o.Labelf("jit:%g", c.JitFrac)
-	res := m3.Segs(m3.MeshFromSegs(jit).Repair(eps))
+	jitMesh := m3.MeshFromSegs(jit)
+	res := m3.Segs(jitMesh.Repair(eps))
+	if err := untouched2(jitMesh, jit, "2D Repair"); err != nil {
+		return err
+	}
 	if len(res) != len(base) {
 		return fmt.Errorf("2D Repair(%g) returned %d segments for %d", eps, len(res), len(base))
 	}
@@ -458,8 +466,12 @@ func checkNormals(c normalsCase, o *kit.Obs) error {
 	default:
 		o.Label("flips:minority")
 	}
-	res, n := m3.MeshFromTris(in).RepairNormals(eps)
+	inMesh := m3.MeshFromTris(in)
+	res, n := inMesh.RepairNormals(eps)
 	out := m3.Tris(res)
+	if err := untouched3(inMesh, in, "RepairNormals"); err != nil {
+		return err
+	}
 	// winding number of the result at probe points with known even-odd membership
 	var inside, outside []kit.V3
 	switch c.Spec.Kind {
